@@ -9,7 +9,7 @@ from __future__ import annotations
 import builtins, enum, functools, inspect, itertools, operator, types
 import z3
 from . import source
-from .interp import (Outside, PyExc, SymVal, GenList, Closure, BoundSource, Contract, SuperProxy, LocalList, LocalDict,
+from .interp import (Outside, PyExc, SymVal, GenList, Closure, BoundSource, Contract, SuperProxy, LocalList, LocalDict, LocalSet,
                      LoopSpec, Interp, is_sym)
 
 PLAIN = (int, float, bool, str, type(None), bytes)
@@ -234,6 +234,18 @@ class World:
         if isinstance(obj, (LocalList, LocalDict)):
             try: return f(*args, **kw)
             except Exception as e: raise PyExc(type(e), e.args)
+        if isinstance(obj, LocalSet) and name in ('add', 'update', 'discard', 'remove', 'clear', 'copy', 'union', 'difference', 'intersection', 'issubset', 'issuperset', 'isdisjoint', '__contains__'):
+            # a set the interpreted code created itself, holding concrete items or tokens with value equality
+            conv = []
+            for a in args:
+                if isinstance(a, (set, frozenset, list, tuple, GenList, LocalSet)): conv.append(a)
+                elif name in ('update', 'union', 'difference', 'intersection', 'issubset', 'issuperset', 'isdisjoint'): conv.append(it.iterate(a))
+                else: conv.append(a)
+            flat = [x for a in conv for x in (a if isinstance(a, (set, frozenset, list, tuple, GenList)) else [a])]
+            if any(is_sym(x) and not _concrete_hashable(x) for x in flat): raise Outside(f'set.{name} with symbolic items')
+            try: r = f(*conv, **kw)
+            except Exception as e: raise PyExc(type(e), e.args)
+            return LocalSet(r) if isinstance(r, set) and not isinstance(r, LocalSet) else r
         if isinstance(obj, (str, tuple, frozenset, int, float)) or (isinstance(obj, (dict, list, set, types.MappingProxyType)) and name in READONLY_METHODS):
             if any(is_sym(x) for x in args):
                 if isinstance(obj, dict) and name == 'get':
@@ -392,10 +404,14 @@ def _b_sorted(it, xs, key=None, reverse=False):
     if any(is_sym(x) for x in items): raise Outside('sorted() of symbolic items')
     if key is not None: raise Outside('sorted with key')
     return LocalList(sorted(items, reverse=reverse))
+def _concrete_hashable(x):
+    "a token whose equality/hash are concrete python (no z3 inside): safe as a member of a local set"
+    return isinstance(x, SymVal) and type(x).__hash__ is not object.__hash__ and type(x).__eq__ is not object.__eq__ and getattr(x, 'concrete_value_semantics', True)
+
 def _b_set(it, xs=()):
     items = it.iterate(xs)
-    if any(is_sym(x) for x in items): raise Outside('set() of symbolic items')
-    return set(items)
+    if any(is_sym(x) and not _concrete_hashable(x) for x in items): raise Outside('set() of symbolic items')
+    return LocalSet(items)
 def _b_frozenset(it, xs=()):
     if isinstance(xs, SymVal) and hasattr(xs, 'sym_frozenset'): return xs.sym_frozenset(it)
     items = it.iterate(xs)
